@@ -17,7 +17,7 @@ Proof. destruct fuel; reflexivity. Qed.
 
 Lemma item_scan_eq : forall w ft dir bt name par,
   item_scan w ft dir (bt, name, par) =
-  option_map (scan_file w bt (path_join dir name)) (ft (path_join dir name)).
+  option_map (scan_file w true bt (path_join dir name)) (ft (path_join dir name)).
 Proof. reflexivity. Qed.
 
 Lemma item_yields_scan : forall w ft dir it ys qs e,
@@ -97,7 +97,7 @@ Qed.
 (* read_all = main file, then the drain *)
 Lemma read_all_ok : forall w ft top fuel ls ys0 q0,
   ft top = Some ls ->
-  scan_file w 0 top (f_rest (read_front_matters ls)) = (ys0, q0, None) ->
+  scan_file w false 0 top (f_rest (read_front_matters ls)) = (ys0, q0, None) ->
   ra_yields (read_all_ft w ft top fuel) = ys0 ++ fst (drain fuel ft (dirname top) w q0) /\
   ra_error (read_all_ft w ft top fuel) = snd (drain fuel ft (dirname top) w q0) /\
   ra_message (read_all_ft w ft top fuel) = f_message (read_front_matters ls) /\
@@ -109,7 +109,7 @@ Qed.
 
 Lemma readq_order_gen : forall w ft top fuel ls ys0 q0 Y C n,
   ft top = Some ls ->
-  scan_file w 0 top (f_rest (read_front_matters ls)) = (ys0, q0, None) ->
+  scan_file w false 0 top (f_rest (read_front_matters ls)) = (ys0, q0, None) ->
   Forall (scans w ft (dirname top) Y C) (bfsG C n q0) ->
   gen_atG C n q0 = [] ->
   List.length (bfsG C n q0) <= fuel ->
@@ -123,7 +123,7 @@ Qed.
 
 Lemma readq_order : forall w ft top fuel ls ys0 q0 n,
   ft top = Some ls ->
-  scan_file w 0 top (f_rest (read_front_matters ls)) = (ys0, q0, None) ->
+  scan_file w false 0 top (f_rest (read_front_matters ls)) = (ys0, q0, None) ->
   Forall (item_ok w ft (dirname top)) (bfs n w ft (dirname top) q0) ->
   gen_at n w ft (dirname top) q0 = [] ->
   List.length (bfs n w ft (dirname top) q0) <= fuel ->
@@ -151,7 +151,7 @@ Qed.
 
 Lemma readq_once : forall w ft top fuel ls ys0 q0 n,
   ft top = Some ls ->
-  scan_file w 0 top (f_rest (read_front_matters ls)) = (ys0, q0, None) ->
+  scan_file w false 0 top (f_rest (read_front_matters ls)) = (ys0, q0, None) ->
   Forall (item_ok w ft (dirname top)) (bfs n w ft (dirname top) q0) ->
   gen_at n w ft (dirname top) q0 = [] ->
   List.length (bfs n w ft (dirname top) q0) <= fuel ->
@@ -210,7 +210,7 @@ Qed.
 
 Lemma readq_missing : forall w ft top fuel ls ys0 q0 n pre it post,
   ft top = Some ls ->
-  scan_file w 0 top (f_rest (read_front_matters ls)) = (ys0, q0, None) ->
+  scan_file w false 0 top (f_rest (read_front_matters ls)) = (ys0, q0, None) ->
   bfs n w ft (dirname top) q0 = pre ++ it :: post ->
   Forall (item_ok w ft (dirname top)) pre -> item_missing ft (dirname top) it ->
   List.length pre < fuel ->
@@ -255,7 +255,7 @@ Qed.
 
 Lemma readq_cycle : forall w ft top ls ys0 q0 (good S : qitem -> Prop),
   ft top = Some ls ->
-  scan_file w 0 top (f_rest (read_front_matters ls)) = (ys0, q0, None) ->
+  scan_file w false 0 top (f_rest (read_front_matters ls)) = (ys0, q0, None) ->
   (forall it, good it -> item_ok w ft (dirname top) it /\ Forall good (item_children w ft (dirname top) it)) ->
   (forall it, S it -> good it /\ Exists S (item_children w ft (dirname top) it)) ->
   Forall good q0 -> Exists S q0 ->
@@ -278,7 +278,7 @@ Proof.
   - destruct q as [|[[bt name] par] q]; [reflexivity|].
     cbn [drain]. rewrite <- Hext.
     destruct (ft (path_join dir name)) as [ls|]; [|reflexivity].
-    destruct (scan_file w bt (path_join dir name) ls) as [[ys qs] [e|]]; [reflexivity|].
+    destruct (scan_file w true bt (path_join dir name) ls) as [[ys qs] [e|]]; [reflexivity|].
     now rewrite IH.
 Qed.
 
@@ -289,7 +289,7 @@ Lemma read_all_ext : forall ft ft' w top fuel,
 Proof.
   intros * Ht Hext. unfold read_all_ft. rewrite <- Ht.
   destruct (ft top) as [ls|]; [|reflexivity]. cbv zeta.
-  destruct (scan_file w 0 top (f_rest (read_front_matters ls))) as [[ys qs] [e|]]; [reflexivity|].
+  destruct (scan_file w false 0 top (f_rest (read_front_matters ls))) as [[ys qs] [e|]]; [reflexivity|].
   now rewrite (drain_ext ft ft' _ _ Hext).
 Qed.
 
@@ -345,7 +345,7 @@ Qed.
 Definition flushc (bt : nat) (raw : list string) : list (nat * list string) :=
   if nonempty raw then [(bt, raw)] else [].
 
-Fixpoint rdc (w : nat) (ls : list string) (bc bt : nat) (cont hnc : bool) (raw : list string)
+Fixpoint rdc (w : nat) (rec : bool) (ls : list string) (bc bt : nat) (cont hnc : bool) (raw : list string)
   : list (nat * list string) * option rd_err :=
   match ls with
   | [] => (flushc bt raw, None)
@@ -355,8 +355,10 @@ Fixpoint rdc (w : nat) (ls : list string) (bc bt : nat) (cont hnc : bool) (raw :
       if all_space line then
         let bc' := S bc in
         let bt' := if Nat.ltb bc' 3 then bc' else bt in
-        let (out, e) := rdc w r bc' bt' cont false [] in
-        (flushc bt raw ++ out, e)
+        if andb (Nat.leb 3 bc') (negb rec) then (flushc bt raw, None)
+        else
+          let (out, e) := rdc w rec r bc' bt' cont false [] in
+          (flushc bt raw ++ out, e)
       else
         let newinp := andb (negb (all_space (takeS BLANK_SPACE_CONTINUE line)))
                      (andb (negb cont) (andb (negb c) (andb hnc (nonempty raw)))) in
@@ -367,7 +369,7 @@ Fixpoint rdc (w : nat) (ls : list string) (bc bt : nat) (cont hnc : bool) (raw :
         else
           let line' := takeS w line in
           let cont' := ends_with amp3 line' in
-          let (out, e) := rdc w r bc bt cont' (orb hnc (negb c)) (raw1 ++ [rstrip line']) in
+          let (out, e) := rdc w rec r bc bt cont' (orb hnc (negb c)) (raw1 ++ [rstrip line']) in
           (pre ++ out, e)
   end.
 
@@ -377,27 +379,28 @@ Proof. intros. unfold flush, flushc. destruct (nonempty raw); reflexivity. Qed.
 Lemma cards_of_app : forall a b, cards_of (a ++ b) = cards_of a ++ cards_of b.
 Proof. intros. unfold cards_of. apply map_app. Qed.
 
-Lemma rd_loop_rdc : forall w ls lineno bc bt cont hnc raw,
-  (cards_of (fst (rd_loop w ls lineno bc bt cont hnc raw)), snd (rd_loop w ls lineno bc bt cont hnc raw))
-  = rdc w ls bc bt cont hnc raw.
+Lemma rd_loop_rdc : forall w rec ls lineno bc bt cont hnc raw,
+  (cards_of (fst (rd_loop w rec ls lineno bc bt cont hnc raw)), snd (rd_loop w rec ls lineno bc bt cont hnc raw))
+  = rdc w rec ls bc bt cont hnc raw.
 Proof.
-  intros w. induction ls as [|l r IH]; intros lineno bc bt cont hnc raw.
+  intros w rec. induction ls as [|l r IH]; intros lineno bc bt cont hnc raw.
   - cbn [rd_loop rdc fst snd]. now rewrite cards_flush.
   - cbn [rd_loop rdc]. cbv zeta.
     destruct (all_space (expandtabs TABSIZE l)).
-    + specialize (IH (S lineno) (S bc) (if Nat.ltb (S bc) 3 then S bc else bt) cont false []).
-      destruct (rd_loop w r (S lineno) (S bc) (if Nat.ltb (S bc) 3 then S bc else bt) cont false []) as [o e].
-      destruct (rdc w r (S bc) (if Nat.ltb (S bc) 3 then S bc else bt) cont false []) as [o' e'].
+    + destruct (andb (Nat.leb 3 (S bc)) (negb rec)); [cbn [fst snd]; now rewrite cards_flush|].
+      specialize (IH (S lineno) (S bc) (if Nat.ltb (S bc) 3 then S bc else bt) cont false []).
+      destruct (rd_loop w rec r (S lineno) (S bc) (if Nat.ltb (S bc) 3 then S bc else bt) cont false []) as [o e].
+      destruct (rdc w rec r (S bc) (if Nat.ltb (S bc) 3 then S bc else bt) cont false []) as [o' e'].
       cbn [fst snd] in *. injection IH as <- <-. now rewrite cards_of_app, cards_flush.
     + set (newinp := andb (negb (all_space (takeS BLANK_SPACE_CONTINUE (expandtabs TABSIZE l))))
                      (andb (negb cont) (andb (negb (is_comment (expandtabs TABSIZE l))) (andb hnc (nonempty raw))))).
       destruct (andb (contains "#"%char (takeS BLANK_SPACE_CONTINUE (expandtabs TABSIZE l)))
                      (negb (is_comment (expandtabs TABSIZE l)))).
       * cbn [fst snd]. destruct newinp; [now rewrite cards_flush|reflexivity].
-      * match goal with |- context [rd_loop w r ?a ?b ?c ?d ?e ?f] =>
-          specialize (IH a b c d e f); destruct (rd_loop w r a b c d e f) as [o e0] end.
+      * match goal with |- context [rd_loop w rec r ?a ?b ?c ?d ?e ?f] =>
+          specialize (IH a b c d e f); destruct (rd_loop w rec r a b c d e f) as [o e0] end.
         unfold amp3.
-        match goal with |- context [rdc w r ?b ?c ?d ?e ?f] => destruct (rdc w r b c d e f) as [o' e'] end.
+        match goal with |- context [rdc w rec r ?b ?c ?d ?e ?f] => destruct (rdc w rec r b c d e f) as [o' e'] end.
         cbn [fst snd] in *. injection IH as <- <-. rewrite cards_of_app.
         destruct newinp; [now rewrite cards_flush|reflexivity].
 Qed.
@@ -414,14 +417,14 @@ Proof. intros E p q [a b]. unfold prepend. cbn [fst snd]. now rewrite app_assoc.
 
 Ltac fin_rdc :=
   unfold cooked; cbn [map List.app];
-  match goal with |- context [rdc ?w ?R ?a ?b ?c ?d ?e] => destruct (rdc w R a b c d e) end; reflexivity.
+  match goal with |- context [rdc ?w ?rc ?R ?a ?b ?c ?d ?e] => destruct (rdc w rc R a b c d e) end; reflexivity.
 
 (* the continuation lines of a card are appended to it *)
-Lemma cont_run : forall w ls R bc bt cont raw,
+Lemma cont_run : forall w rec ls R bc bt cont raw,
   cont_lines w cont ls = true -> raw <> [] ->
-  rdc w (ls ++ R) bc bt cont true raw = rdc w R bc bt false true (raw ++ cooked w ls).
+  rdc w rec (ls ++ R) bc bt cont true raw = rdc w rec R bc bt false true (raw ++ cooked w ls).
 Proof.
-  intros w. induction ls as [|l r IH]; intros R bc bt cont raw H Hraw.
+  intros w rec. induction ls as [|l r IH]; intros R bc bt cont raw H Hraw.
   - cbn [cont_lines] in H. apply negb_true_iff in H. subst cont.
     cbn [List.app cooked map]. now rewrite app_nil_r.
   - cbn [cont_lines] in H.
@@ -442,11 +445,11 @@ Proof.
 Qed.
 
 (* a card (with comment lines in front) met while nothing but comment lines are pending: no flush *)
-Lemma lead_step : forall w c R bc bt cont raw,
+Lemma lead_step : forall w rec c R bc bt cont raw,
   lcard_ok w c = true ->
-  rdc w (c ++ R) bc bt cont false raw = rdc w R bc bt false true (raw ++ cooked w c).
+  rdc w rec (c ++ R) bc bt cont false raw = rdc w rec R bc bt false true (raw ++ cooked w c).
 Proof.
-  intros w. induction c as [|l r IH]; intros R bc bt cont raw H; [discriminate|].
+  intros w rec. induction c as [|l r IH]; intros R bc bt cont raw H; [discriminate|].
   cbn [lcard_ok] in H. destruct (comment_line l) eqn:Ec.
   - unfold comment_line in Ec. apply andb_true_iff in Ec as [E1 E2]. apply negb_true_iff in E1.
     cbn [List.app rdc]. cbv zeta. rewrite E1, E2. cbn [negb andb orb].
@@ -468,11 +471,11 @@ Proof.
 Qed.
 
 (* a card met behind another card: that one is flushed *)
-Lemma card_step : forall w c R bc bt raw,
+Lemma card_step : forall w rec c R bc bt raw,
   card_ok w c = true -> raw <> [] ->
-  rdc w (c ++ R) bc bt false true raw = prepend [(bt, raw)] (rdc w R bc bt false true (cooked w c)).
+  rdc w rec (c ++ R) bc bt false true raw = prepend [(bt, raw)] (rdc w rec R bc bt false true (cooked w c)).
 Proof.
-  intros w c R bc bt raw H Hraw. destruct c as [|l r]; [discriminate|].
+  intros w rec c R bc bt raw H Hraw. destruct c as [|l r]; [discriminate|].
   cbn [card_ok] in H. apply andb_true_iff in H as [Hs Hc]. unfold start_line in Hs.
   apply andb_true_iff in Hs as [S1 Hs]. apply andb_true_iff in Hs as [S2 Hs]. apply andb_true_iff in Hs as [S3 S4].
   apply negb_true_iff in S1. apply negb_true_iff in S2. apply negb_true_iff in S4.
@@ -491,20 +494,22 @@ Qed.
 Definition boundary (R : list string) : bool :=
   match R with [] => true | sep :: _ => blank_line sep end.
 
-Definition after (w : nat) (R : list string) (bc bt : nat) : list (nat * list string) * option rd_err :=
+Definition after (w : nat) (rec : bool) (R : list string) (bc bt : nat) : list (nat * list string) * option rd_err :=
   match R with
   | [] => ([], None)
-  | _ :: R' => rdc w R' (S bc) (next_bt bc bt) false false []
+  | _ :: R' => if stops rec bc then ([], None) else rdc w rec R' (S bc) (next_bt bc bt) false false []
   end.
 
-Lemma at_boundary : forall w R bc bt hnc raw,
+Lemma at_boundary : forall w rec R bc bt hnc raw,
   boundary R = true ->
-  rdc w R bc bt false hnc raw = prepend (flushc bt raw) (after w R bc bt).
+  rdc w rec R bc bt false hnc raw = prepend (flushc bt raw) (after w rec R bc bt).
 Proof.
-  intros w R bc bt hnc raw H. destruct R as [|sep R'].
+  intros w rec R bc bt hnc raw H. destruct R as [|sep R'].
   - cbn [rdc after]. unfold prepend. cbn [fst snd]. now rewrite app_nil_r.
-  - cbn [boundary] in H. unfold blank_line in H. cbn [rdc after]. cbv zeta. rewrite H.
-    unfold next_bt. destruct (rdc w R' (S bc) (if Nat.ltb (S bc) 3 then S bc else bt) false false []); reflexivity.
+  - cbn [boundary] in H. unfold blank_line in H. cbn [rdc after]. cbv zeta. rewrite H. unfold stops.
+    destruct (andb (Nat.leb 3 (S bc)) (negb rec)).
+    + unfold prepend. cbn [fst snd]. now rewrite app_nil_r.
+    + unfold next_bt. destruct (rdc w rec R' (S bc) (if Nat.ltb (S bc) 3 then S bc else bt) false false []); reflexivity.
 Qed.
 
 Definition typed (w bt : nat) (cs : list card) : list (nat * list string) :=
@@ -513,12 +518,12 @@ Definition typed (w bt : nat) (cs : list card) : list (nat * list string) :=
 Lemma card_ok_nonempty : forall w c, card_ok w c = true -> cooked w c <> [].
 Proof. intros w [|l r] H; [discriminate|]. cbn. discriminate. Qed.
 
-Lemma block_run : forall w cs R bc bt raw,
+Lemma block_run : forall w rec cs R bc bt raw,
   forallb (card_ok w) cs = true -> boundary R = true -> raw <> [] ->
-  rdc w (List.concat cs ++ R) bc bt false true raw
-    = prepend ((bt, raw) :: typed w bt cs) (after w R bc bt).
+  rdc w rec (List.concat cs ++ R) bc bt false true raw
+    = prepend ((bt, raw) :: typed w bt cs) (after w rec R bc bt).
 Proof.
-  intros w. induction cs as [|c cs IH]; intros R bc bt raw H HR Hraw.
+  intros w rec. induction cs as [|c cs IH]; intros R bc bt raw H HR Hraw.
   - cbn [List.concat List.app typed map]. rewrite at_boundary by exact HR.
     unfold flushc. destruct raw; [contradiction|reflexivity].
   - cbn [forallb] in H. apply andb_true_iff in H as [Hc Hcs].
@@ -526,11 +531,11 @@ Proof.
     rewrite IH; auto using card_ok_nonempty.
 Qed.
 
-Lemma block_first : forall w b R bc bt,
+Lemma block_first : forall w rec b R bc bt,
   block_ok w b = true -> boundary R = true ->
-  rdc w (List.concat b ++ R) bc bt false false [] = prepend (typed w bt b) (after w R bc bt).
+  rdc w rec (List.concat b ++ R) bc bt false false [] = prepend (typed w bt b) (after w rec R bc bt).
 Proof.
-  intros w b R bc bt H HR. destruct b as [|c cs].
+  intros w rec b R bc bt H HR. destruct b as [|c cs].
   - cbn [List.concat List.app typed map]. rewrite at_boundary by exact HR. reflexivity.
   - cbn [block_ok] in H. apply andb_true_iff in H as [Hc Hcs].
     cbn [List.concat]. rewrite <- app_assoc. rewrite lead_step by exact Hc. cbn [List.app].
@@ -541,47 +546,45 @@ Qed.
 Definition render_more (more : list (string * list card)) : list string :=
   flat_map (fun sb => fst sb :: List.concat (snd sb)) more.
 
-Lemma boundary_more : forall w more,
-  forallb (fun sb => andb (blank_line (fst sb)) (block_ok w (snd sb))) more = true ->
-  boundary (render_more more) = true.
+Lemma boundary_more : forall w rec bc more, more_ok w rec bc more = true -> boundary (render_more more) = true.
 Proof.
-  intros w [|sb r] H; [reflexivity|]. cbn [forallb] in H. apply andb_true_iff in H as [H _].
-  apply andb_true_iff in H as [H _]. exact H.
+  intros w rec bc [|sb r] H; [reflexivity|]. cbn [more_ok] in H. apply andb_true_iff in H as [H _]. exact H.
 Qed.
 
-Lemma more_run : forall w more bc bt,
-  forallb (fun sb => andb (blank_line (fst sb)) (block_ok w (snd sb))) more = true ->
-  after w (render_more more) bc bt = (map (cook_t w) (more_tcards bc bt more), None).
+Lemma more_run : forall w rec more bc bt,
+  more_ok w rec bc more = true ->
+  after w rec (render_more more) bc bt = (map (cook_t w) (more_tcards rec bc bt more), None).
 Proof.
-  intros w. induction more as [|sb r IH]; intros bc bt H; [reflexivity|].
-  assert (Hb := H). cbn [forallb] in H. apply andb_true_iff in H as [H Hr]. apply andb_true_iff in H as [H1 H2].
+  intros w rec. induction more as [|sb r IH]; intros bc bt H; [reflexivity|].
+  cbn [more_ok] in H. apply andb_true_iff in H as [H1 H2].
   cbn [render_more flat_map List.app after more_tcards].
+  destruct (stops rec bc); [reflexivity|]. apply andb_true_iff in H2 as [H2 H3].
   change (flat_map (fun sb0 : string * list card => fst sb0 :: List.concat (snd sb0)) r) with (render_more r).
   rewrite block_first by (auto; eapply boundary_more; eauto).
-  rewrite IH by exact Hr. unfold prepend, typed. cbn [fst snd].
+  rewrite IH by exact H3. unfold prepend, typed. cbn [fst snd].
   rewrite map_app, map_map. reflexivity.
 Qed.
 
-Lemma render_run : forall w sf bt,
+Lemma render_run : forall w rec sf bt,
   block_ok w (s_first sf) = true ->
-  forallb (fun sb => andb (blank_line (fst sb)) (block_ok w (snd sb))) (s_more sf) = true ->
-  rdc w (render sf) 0 bt false false [] = (map (cook_t w) (sfile_tcards bt sf), None).
+  more_ok w rec 0 (s_more sf) = true ->
+  rdc w rec (render sf) 0 bt false false [] = (map (cook_t w) (sfile_tcards rec bt sf), None).
 Proof.
-  intros w sf bt H1 H2. unfold render.
+  intros w rec sf bt H1 H2. unfold render.
   change (flat_map (fun sb : string * list card => fst sb :: List.concat (snd sb)) (s_more sf)) with (render_more (s_more sf)).
   rewrite block_first by (auto; eapply boundary_more; eauto).
   rewrite more_run by exact H2. unfold prepend, typed, sfile_tcards. cbn [fst snd].
   rewrite map_app, map_map. reflexivity.
 Qed.
 
-Lemma read_data_render : forall w sf bt,
+Lemma read_data_render : forall w rec sf bt,
   block_ok w (s_first sf) = true ->
-  forallb (fun sb => andb (blank_line (fst sb)) (block_ok w (snd sb))) (s_more sf) = true ->
-  cards_of (fst (read_data_from w bt (render sf))) = map (cook_t w) (sfile_tcards bt sf) /\
-  snd (read_data_from w bt (render sf)) = None.
+  more_ok w rec 0 (s_more sf) = true ->
+  cards_of (fst (read_data_rec w rec bt (render sf))) = map (cook_t w) (sfile_tcards rec bt sf) /\
+  snd (read_data_rec w rec bt (render sf)) = None.
 Proof.
-  intros w sf bt H1 H2. unfold read_data_from.
-  assert (E := rd_loop_rdc w (render sf) 0 0 bt false false []).
+  intros w rec sf bt H1 H2. unfold read_data_rec.
+  assert (E := rd_loop_rdc w rec (render sf) 0 0 bt false false []).
   rewrite render_run in E by assumption. now injection E.
 Qed.
 
@@ -1172,7 +1175,7 @@ Qed.
    breadth-first order *)
 Lemma readq_block_order : forall w ft top fuel ls ys0 q0 n b,
   ft top = Some ls ->
-  scan_file w 0 top (f_rest (read_front_matters ls)) = (ys0, q0, None) ->
+  scan_file w false 0 top (f_rest (read_front_matters ls)) = (ys0, q0, None) ->
   Forall (item_ok w ft (dirname top)) (bfs n w ft (dirname top) q0) ->
   Forall (item_one_block ft (dirname top)) (bfs n w ft (dirname top) q0) ->
   gen_at n w ft (dirname top) q0 = [] ->
@@ -1206,7 +1209,7 @@ Qed.
 
 Lemma readq_kept : forall w ft top fuel ls ys0 q0 n,
   ft top = Some ls ->
-  scan_file w 0 top (f_rest (read_front_matters ls)) = (ys0, q0, None) ->
+  scan_file w false 0 top (f_rest (read_front_matters ls)) = (ys0, q0, None) ->
   Forall (item_ok w ft (dirname top)) (bfs n w ft (dirname top) q0) ->
   gen_at n w ft (dirname top) q0 = [] ->
   List.length (bfs n w ft (dirname top) q0) <= fuel ->
